@@ -429,6 +429,7 @@ fn run_trie(_ctx: &Ctx, case: &Value, tag: usize, rep: &mut Report, mb: &mut Mod
     let mut alphabet: Vec<u8> = words.iter().flatten().copied().collect();
     alphabet.sort();
     alphabet.dedup();
+    if alphabet.is_empty() { alphabet.push(b'a'); } // a vocabulary of empty words only
 
     let n_dfa = 6;
     for _ in 0..n_dfa {
